@@ -503,7 +503,9 @@ class RaftNode(Entity):
             self._step_down(term)
             return [self._schedule_election_timeout()]
 
-        if self._state != RaftState.LEADER:
+        if self._state != RaftState.LEADER or term != self._current_term:
+            # Not leader, or a late answer to a request of an earlier term of
+            # leadership: it says nothing about the follower's log today.
             return []
 
         if follower is None:
